@@ -23,7 +23,8 @@ EXPLANATION = (
     "arguments are forwarded as ns[k], xxs[k] in order, extrap_x and pop_ids are set on every returning path, F=0 delegates to "
     "from_phi; (4) R-KEY on the beta-difference memo and on the beta-binomial / multinomial / partition memos of the inbreeding path; "
     "(5) R-LIN - every implementation applies only linear operations to the density (taint classes U/L/N, interprocedural). "
-    "Equality with an independent quadrature is not decided.")
+    "Equality with an independent quadrature is not decided."
+    ' R-REC: Numerics.part (partitions behind BetaBinomConvolution) passes every defaulted bound (minval, maxval) at each self-call. R-DTYPE: no from_phi routine creates an array with a narrow or argument-dependent dtype.')
 TECHNIQUE = "stencil normal forms of slice arithmetic + sibling templates of 15 implementations + dispatch exhaustiveness / definite assignment"
 DECLINED = ["equality with an independent quadrature", "mass / projection consistency as numerical statements", "beta-binomial normalisation", "effect of the 1e-16 grid clamp"]
 
